@@ -475,6 +475,53 @@ fn schema_interest(m: &MNode, opt: &mut u64, multi: &mut u64, text: &mut u64, op
     }
 }
 
+/// reach probes over the occurrence sequence of every schema position (the interleavings the properties'
+/// "why tests cannot" paragraphs name): optional child re-seen, child first seen in a later occurrence,
+/// child repeated only in a later document, `<x/>` occurrence of a position that has children
+fn occurrence_probes(docs: &[Doc], ctr: &mut Ctr) {
+    fn walk(occs: Vec<(usize, &Elem)>, hits: &mut [bool; 4]) {
+        let mut names: Vec<&str> = Vec::new();
+        for (_, o) in &occs {
+            for c in o.elems() {
+                if !names.contains(&c.name.as_str()) {
+                    names.push(&c.name);
+                }
+            }
+        }
+        if !names.is_empty() && occs.iter().any(|(_, o)| o.kids.is_empty() && o.selfclose) {
+            hits[3] = true;
+        }
+        for n in &names {
+            let present: Vec<usize> = occs.iter().map(|(_, o)| o.elems().filter(|c| c.name == *n).count()).collect();
+            // present, absent, present again
+            let first = present.iter().position(|c| *c > 0).unwrap();
+            if let Some(gap) = present.iter().skip(first).position(|c| *c == 0) {
+                if present.iter().skip(first + gap).any(|c| *c > 0) {
+                    hits[0] = true;
+                }
+            }
+            if first > 0 {
+                hits[1] = true;
+            }
+            let first_doc = occs[0].0;
+            let multi_first = occs.iter().filter(|(d, _)| *d == first_doc).zip(present.iter()).any(|(_, c)| *c > 1);
+            let multi_later = occs.iter().zip(present.iter()).any(|((d, _), c)| *d != first_doc && *c > 1);
+            if multi_later && !multi_first {
+                hits[2] = true;
+            }
+            let sub: Vec<(usize, &Elem)> = occs.iter().flat_map(|(d, o)| o.elems().filter(move |c| c.name == *n).map(move |c| (*d, c))).collect();
+            walk(sub, hits);
+        }
+    }
+    let mut hits = [false; 4];
+    walk(docs.iter().enumerate().map(|(i, d)| (i, &d.root)).collect(), &mut hits);
+    for (h, k) in hits.iter().zip(["reach.optional_child_seen_again", "reach.child_first_seen_in_later_occurrence", "reach.child_repeated_only_in_later_document", "reach.selfclosed_occurrence_of_position_with_children"]) {
+        if *h {
+            bump(ctr, k);
+        }
+    }
+}
+
 fn reach(ctr: &mut Ctr, m: &MNode) -> bool {
     let (mut o, mut v, mut t, mut a) = (0, 0, 0, 0);
     schema_interest(m, &mut o, &mut v, &mut t, &mut a);
@@ -565,6 +612,7 @@ impl Prop for C03 {
             }
         }
         let nt = reach(ctr, &c.model_all);
+        occurrence_probes(&s.docs, ctr);
         Ok(finish(&c, violation, nt))
     }
     fn rule(&self) -> &'static str {
